@@ -219,7 +219,9 @@ class Summariser:
         return self.out
 
     def _end(self, p: Path, kind, value, node):
-        q = Path(list(p.tests), [_simplify(e) for e in p.effects], kind, _simplify(value) if value is not None else None, dict(p.env), node)
+        dec = _Decide(p.tests)
+        q = Path(list(p.tests), [_simplify(dec.visit(copy.deepcopy(e))) if dec.active and _has_ifexp(e) else _simplify(e) for e in p.effects], kind,
+                 (_simplify(dec.visit(copy.deepcopy(value))) if dec.active and _has_ifexp(value) else _simplify(value)) if value is not None else None, dict(p.env), node)
         self.out.append(q)
         if len(self.out) > self.bound:
             raise PathBound()
@@ -249,6 +251,20 @@ class Summariser:
         if not raw and (isinstance(e2, ast.BoolOp) or (isinstance(e2, ast.UnaryOp) and isinstance(e2.op, ast.Not))):
             self._test(e2, p, cont_true, cont_false, True)
             return
+        ip = e2 if isinstance(e2, ast.Call) and u(e2.func) == "isinstance" and len(e2.args) == 2 and not e2.keywords else None
+        if ip is not None and (isinstance(ip.args[1], ast.Tuple) or (isinstance(ip.args[1], ast.BinOp) and isinstance(ip.args[1].op, ast.BitOr))):
+            # isinstance(x, A | B) is isinstance(x, A) or isinstance(x, B): one class per test, like the arms of a match
+            def flat(c):
+                if isinstance(c, ast.BinOp) and isinstance(c.op, ast.BitOr):
+                    return flat(c.left) + flat(c.right)
+                if isinstance(c, ast.Tuple):
+                    return [y for x in c.elts for y in flat(x)]
+                return [c]
+            classes = flat(ip.args[1])
+            if len(classes) >= 2 and not any(isinstance(c, ast.Starred) for c in classes):
+                alts = [ast.copy_location(ast.Call(func=ip.func, args=[copy.deepcopy(ip.args[0]), c], keywords=[]), ip) for c in classes]
+                self._test(ast.copy_location(ast.BoolOp(op=ast.Or(), values=alts), ip), p, cont_true, cont_false, True)
+                return
         neg = _canon_neg(e2)
         a, b = self._fork(p), self._fork(p)
         t = neg if neg is not None else e2
@@ -648,6 +664,36 @@ def _feasible(tests, t, taken):
             if not taken and not k and me[1] <= other[1]:
                 return "known"
     return True
+
+
+def _has_ifexp(e) -> bool:
+    return any(isinstance(n, ast.IfExp) for n in ast.walk(e))
+
+
+class _Decide(ast.NodeTransformer):
+    """conditional expressions whose (pure) test the path has already decided keep the alternative taken"""
+    def __init__(self, tests):
+        self.tests = tests
+        self.active = bool(tests)
+
+    def visit_IfExp(self, node):
+        self.generic_visit(node)
+        t, taken = node.test, True
+        while isinstance(t, ast.UnaryOp) and isinstance(t.op, ast.Not):
+            t, taken = t.operand, not taken
+        if norm.is_pure(t, _PURE):
+            ft, ff = _feasible(self.tests, t, taken), _feasible(self.tests, t, not taken)
+            if ft == "known" or ff is False:
+                return node.body
+            if ff == "known" or ft is False:
+                return node.orelse
+        return node
+
+    def visit_Lambda(self, node):
+        return node
+
+    def visit_FunctionDef(self, node):
+        return node
 
 
 def summaries(stmts, bound: int = 512) -> list[Path]:
